@@ -380,14 +380,19 @@ def ctNewSubA (t : CT) (s : AS) : (Option Id × CT) × AS :=
   | (none, s1) => ((none, t), s1)
   | (some b, s1) => ((some b, { t with subs := t.subs ++ [(b, [])] }), s1)
 
+/-- apply `f` to the item list of the first sub-tree with struct block `sub` -/
+def modSub (sub : Id) (f : List Id → List Id) : List (Id × List Id) → List (Id × List Id)
+  | [] => []
+  | p :: ps => if p.1 == sub then (p.1, f p.2) :: ps else p :: modSub sub f ps
+
 def addToSub (subs : List (Id × List Id)) (sub blk : Id) : List (Id × List Id) :=
-  subs.map fun p => if p.1 == sub then (p.1, p.2 ++ [blk]) else p
+  modSub sub (· ++ [blk]) subs
 
 def replInSub (subs : List (Id × List Id)) (sub old new : Id) : List (Id × List Id) :=
-  subs.map fun p => if p.1 == sub then (p.1, p.2.erase old ++ [new]) else p
+  modSub sub (fun l => l.erase old ++ [new]) subs
 
 def delInSub (subs : List (Id × List Id)) (sub blk : Id) : List (Id × List Id) :=
-  subs.map fun p => if p.1 == sub then (p.1, p.2.erase blk) else p
+  modSub sub (·.erase blk) subs
 
 /-- `tree_alloc` in the top tree (`sub = none`) or in a sub-tree -/
 def ctAllocA (t : CT) (sub : Option Id) (s : AS) : (Option Id × CT) × AS :=
@@ -416,7 +421,7 @@ def ctFreeA (t : CT) (sub : Option Id) (blk : Id) (s : AS) : CT × AS :=
 def ctDestroySubA (t : CT) (sid : Id) (s : AS) : CT × AS :=
   match t.subs.find? (·.1 == sid) with
   | none => (t, s)
-  | some p => ({ t with subs := t.subs.filter (·.1 != sid) }, freeS p.1 (freeAllS p.2 s))
+  | some p => ({ t with subs := t.subs.eraseP (·.1 == sid) }, freeS p.1 (freeAllS p.2 s))
 
 /-- `cx_destroy` of the top tree: items, sub-trees, the struct -/
 def ctDestroyA (t : CT) (s : AS) : AS :=
